@@ -47,7 +47,75 @@ def valid_expr(expr):
 # C10.cli
 # ------------------------------------------------------------------------------------------------
 
+RDIR_VIAS = ["option", "env", "both", "empty-option+env", "default"]
+RDIR_STATES = ["missing", "nested", "empty", "previous", "file"]
+REPORT_FILES = {"report.js": "json", "report.xml": "xml", "report-junit.xml": "junit"}
+
+
+def rdir_plan(case, top):
+    """where the report directory of the observed run comes from (`--report-dir`, `$LCC_REPORT_DIR`, both, the project's default
+    location) and what is at that path when the run starts -> (directory, argv part, environment part)"""
+    rd = case.get("rdir")
+    if rd is None:           # the fixed form of the earlier rounds: a fresh `--report-dir`
+        d = os.path.join(top, "report")
+        return d, ["--report-dir", d], {}
+    d = os.path.join(top, "a", "b", "out") if rd["state"] == "nested" else os.path.join(top, "out")
+    via = rd["via"]
+    if via == "option":
+        return d, ["--report-dir", d], {}
+    if via == "env":
+        return d, [], {"LCC_REPORT_DIR": d}
+    if via == "both":        # the option wins; the variable names another (missing) path
+        return d, ["--report-dir", d], {"LCC_REPORT_DIR": os.path.join(top, "elsewhere")}
+    if via == "empty-option+env":
+        return d, ["--report-dir", ""], {"LCC_REPORT_DIR": d}
+    return os.path.join(top, "report"), [], {}      # default: the project's rotated `report`
+
+
+def _dir_files(d):
+    """the report files in `d` with their bytes (what a later run must not find / must leave alone)"""
+    out = {}
+    if os.path.isdir(d):
+        for f in sorted(os.listdir(d)):
+            fp = os.path.join(d, f)
+            if os.path.isfile(fp):
+                with open(fp, "rb") as fh:
+                    out[f] = fh.read()
+    return out
+
+
 def run_cli(case, watchdog=60.0):
+    """the observed run — after, when the case says so, a PREVIOUS real run into the same report directory"""
+    top = tempfile.mkdtemp(prefix="lccverif-c10cli-")
+    try:
+        rd = case.get("rdir")
+        d, dir_argv, dir_env = rdir_plan(case, top)
+        before = None
+        if rd is not None:
+            st = rd["state"]
+            if st == "empty" and rd["via"] != "default":
+                os.makedirs(d)
+            elif st == "file" and rd["via"] != "default":
+                with open(d, "w") as fh:
+                    fh.write("not a directory\n")
+            elif st == "previous":
+                prev = dict(case, cli=rd.get("prev_expr") or "at_end_of_tests", env=None)
+                _run_once(prev, top, dir_argv, dir_env, watchdog)
+            before = {"exists": os.path.exists(d), "files": sorted(_dir_files(d))}
+            content = _dir_files(d)
+        obs = _run_once(case, top, dir_argv, dir_env, watchdog)
+        if rd is not None:
+            obs["dir_before"] = before
+            # a refused run must leave what was there alone
+            obs["dir_untouched"] = (_dir_files(d) == content) if not obs["events"] else None
+            if rd["via"] == "default":
+                obs["archived"] = sorted(os.listdir(os.path.join(top, "reports"))) if os.path.isdir(os.path.join(top, "reports")) else []
+        return obs
+    finally:
+        shutil.rmtree(top, ignore_errors=True)
+
+
+def _run_once(case, top, dir_argv, dir_env, watchdog=60.0):
     from props import c10
     from props._cli import real_parser
     import lemoncheesecake.project as LP
@@ -57,8 +125,7 @@ def run_cli(case, watchdog=60.0):
     from lemoncheesecake.session import Session
     from lemoncheesecake.suite import resolve_tests_dependencies
 
-    top = tempfile.mkdtemp(prefix="lccverif-c10cli-")
-    side = {"recorded": [], "observer": None, "strategy": "not-created"}
+    side = {"recorded": [], "observer": None, "strategy": "not-created", "at_start": []}
     all_backends = {"json": c10.make_backend("json", case["variant"]), "xml": c10.make_backend("xml"), "junit": c10.make_backend("junit")}
     attached = case.get("backends") or ["json", "xml"]
     backends = {k: all_backends[k] for k in attached}          # in the order `--reporting` names them
@@ -72,6 +139,12 @@ def run_cli(case, watchdog=60.0):
             side["report_dir"] = report_dir
             sessions = [(os.path.join(report_dir, be.get_report_filename()), be) for be in backends.values()]
             recorded = side["recorded"]
+            # the run has its directory, no event is handled yet: what does a reader of the report files find NOW ?
+            if isinstance(report_dir, str) and os.path.isdir(report_dir):
+                for f in sorted(os.listdir(report_dir)):
+                    if f in REPORT_FILES:
+                        side["at_start"].append({"kind": REPORT_FILES[f], "attached": f in {os.path.basename(p) for p, _ in sessions},
+                                                 "load": c10.load_nf(os.path.join(report_dir, f))})
 
             class Rec(c10.Observer):
                 def _after(self, event):
@@ -105,7 +178,7 @@ def run_cli(case, watchdog=60.0):
         def build_report_title(self):
             return case.get("title") or LP.Project.build_report_title(self)
 
-    argv = ["--report-dir", os.path.join(top, "report"), "--threads", str(case["spec"]["nb_threads"])]
+    argv = list(dir_argv) + ["--threads", str(case["spec"]["nb_threads"])]
     if case.get("backends"):
         # the real `--reporting` option (fixed list form): the file backends in this order, the observer last
         argv += ["--reporting"] + list(attached) + ["zz-lccverif-observer"]
@@ -127,6 +200,7 @@ def run_cli(case, watchdog=60.0):
     try:
         if case["env"] is not None:
             os.environ["LCC_SAVE_REPORT"] = case["env"]
+        os.environ.update(dir_env)
         th = threading.Thread(target=body, daemon=True, name="lccverif-c10cli")
         th.start()
         th.join(watchdog)
@@ -135,6 +209,7 @@ def run_cli(case, watchdog=60.0):
         obs = {"argv": [a.replace(top, "<tmp>") for a in argv], "strategy": side["strategy"],
                "outcome": {"raised": out["raised"][0], "text": out["raised"][1].replace(top, "<tmp>")} if "raised" in out
                else {"exit": out["exit"]}}
+        obs["at_start"] = side["at_start"]
         ob = side["observer"]
         if ob is None:
             return dict(obs, events=[], handled=0, failure=None, sessions=[], status_after={}, final_report=None, nfs=[])
@@ -159,7 +234,6 @@ def run_cli(case, watchdog=60.0):
             os.environ.pop(k, None)
         os.environ.update(saved_env)
         Session._instance = old_instance
-        shutil.rmtree(top, ignore_errors=True)
 
 
 def _all_suites(suites):
@@ -172,9 +246,58 @@ def _spec_one_suite(tests):
     return {"suites": [{"name": "top0", "tests": tests, "subs": [], "setup": None, "teardown": None}], "nb_threads": 1}
 
 
+def dir_unusable(case):
+    rd = case.get("rdir")
+    return bool(rd) and rd["via"] != "default" and rd["state"] != "missing"
+
+
+def stale_failures(obs):
+    """C10, first sentence, at the first instant of the run: a report file that exists in the run's directory when the run has
+    got it (no event handled yet) must load and describe a prefix of THIS run's final report"""
+    from props import c10
+    out = []
+    final = obs.get("final_report")
+    for x in obs.get("at_start") or []:
+        if x["kind"] == "junit":
+            continue                       # no loader, no prefix relation: only read by the save-point facts
+        load = x["load"]
+        if "nf" not in load:
+            out.append(C.Failure("C10/stale-report-visible/%s" % x["kind"],
+                                 "a report file exists in the report directory when the run starts and does not load: %s" % (load,)))
+            continue
+        if final is None:
+            continue
+        why = c10.nf_prefix(load["nf"], final)
+        if why:
+            out.append(C.Failure("C10/stale-report-visible/%s" % x["kind"],
+                                 "the report file found in the report directory when the run starts (before its first save) is not a "
+                                 "prefix of this run's final report: %s" % "; ".join(why[:3])))
+    return out
+
+
+def model_runs(case):
+    """the history of runs the observed one is the last of, in the words of `Model/RunSeq.lean` (None: the path state is outside that
+    model — a regular file, a missing parent: `RunStart.startOutcome`, table reportDirTable)"""
+    rd = case.get("rdir")
+    if rd is None:
+        return [{"cli": {"other": 0}, "env": None, "writes": True}]
+    tgt = {"option": ({"other": 0}, None), "env": (None, {"other": 0}), "both": ({"other": 0}, {"other": 1}),
+           "empty-option+env": ("", {"other": 0}), "default": (None, None)}[rd["via"]]
+    this = {"cli": tgt[0], "env": tgt[1], "writes": True}
+    if rd["state"] == "missing":
+        return [this]
+    if rd["via"] == "default":
+        return [this, this] if rd["state"] == "previous" else [this]
+    if rd["state"] == "previous":
+        return [this, this]
+    if rd["state"] == "empty":          # a directory that exists and holds nothing = what a run without file backend leaves
+        return [dict(this, writes=False), this]
+    return None
+
+
 class Cli(C.Stream):
     name = "C10.cli"
-    quick_cases = 110
+    quick_cases = 130
     thorough_cases = 1500
     quick_seconds = 12
     thorough_seconds = 120
@@ -199,6 +322,21 @@ class Cli(C.Stream):
                                        {"name": "t1", "acts": [["info", "target", "beta"], ["log", "info", "m"]], "mode": "run"}]), has_info=True),
          "cli": "at_each_test", "env": None, "variant": 0, "texts": "plain", "backends": ["json", "xml"],
          "project_info": [["target", "default"]], "title": "Campaign 1"},
+    ] + [
+        # two `lcc.Thread` workers of one test carrying the SAME name, the first ending first, logs (saves) before the second ends
+        {"spec": _spec_one_suite([{"name": "t0", "mode": "run",
+                                   "acts": [["threads", ["a0"], ["b0"], True, ["worker", "worker"]], ["log", "info", "after"]]},
+                                  {"name": "t1", "acts": [["log", "info", "m"]], "mode": "run"}]),
+         "cli": "at_each_log", "env": None, "variant": 0, "texts": "plain", "backends": ["json", "xml"]},
+    ] + [
+        # a second run into the same explicitly given report directory (option / variable), which holds the first run's report; no
+        # save before the end of the run: whatever a reader finds there meanwhile must be this run's — and the default location
+        {"spec": _spec_one_suite([{"name": "t0", "acts": [["log", "info", "m"], ["check", False]], "mode": "run"},
+                                  {"name": "t1", "acts": [["log", "info", "m"]], "mode": "run"}]),
+         "cli": "at_end_of_tests", "env": None, "variant": 0, "texts": "plain", "backends": ["json", "xml"],
+         "rdir": {"via": via, "state": state, "prev_expr": "at_end_of_tests"}}
+        for via, state in [("option", "previous"), ("env", "previous"), ("default", "previous"), ("option", "empty"), ("both", "missing"),
+                           ("empty-option+env", "file"), ("env", "nested")]
     ]
 
     def setup(self, ctx):
@@ -224,6 +362,11 @@ class Cli(C.Stream):
             case["project_info"] = [[rng.choice(c10.INFO_NAMES), "p%d" % rng.randint(0, 9)] for _ in range(rng.choice([1, 1, 2]))]
             if rng.random() < 0.5:
                 case["title"] = "Campaign %d" % rng.randint(0, 9)
+        if rng.random() < 0.36:
+            # where the report directory comes from and what is at that path when the run starts (a previous run's report: the
+            # same project run once before, by the same real entry point, into the same place)
+            case["rdir"] = {"via": rng.choice(RDIR_VIAS), "state": rng.choice(RDIR_STATES + ["previous", "previous", "missing"]),
+                            "prev_expr": rng.choice(STATIC_NAMES[:5])}
         return case
 
     def impl(self, case):
@@ -233,9 +376,13 @@ class Cli(C.Stream):
         from props import c10
         requested = requested_expr(case["cli"], case["env"])
         raised = obs["outcome"].get("raised")
+        stale = stale_failures(obs)
+        if stale:
+            return stale
         if raised and not obs["events"]:
-            # refused before anything ran: only an invalid request may be, and by the documented error class
-            if valid_expr(requested):
+            # refused before anything ran: only an invalid request may be, and by the documented error class — or a run whose
+            # report directory cannot be made (C10 says nothing about a run that never starts)
+            if valid_expr(requested) and not dir_unusable(case):
                 return [C.Failure("C10/cli/valid-request-refused", "lcc run --save-report %r with $LCC_SAVE_REPORT=%r raised %s: %s"
                                   % (case["cli"], case["env"], raised, obs["outcome"]["text"][:200]))]
             return []
@@ -243,21 +390,37 @@ class Cli(C.Stream):
             return []           # accepted although not documented (e.g. a trailing line feed): nothing is promised
         # (for the wall-clock strategies check_sessions looks at the final save and at the loadability / prefix facts only)
         return c10.check_sessions(obs["events"], obs["handled"], raised, obs["sessions"], obs["status_after"], obs["final_report"],
-                                  lambda load: obs["nfs"][load["nf"]])
+                                  lambda load: obs["nfs"][load["nf"]], real=True)
 
     def request(self, case, obs):
         from props import c10
+        runs = model_runs(case)
+        extra = {"runs": runs} if runs is not None else {}
         if not obs["events"]:
-            return {"op": "option", "cli": case["cli"], "env": case["env"]}
+            return dict({"op": "option", "cli": case["cli"], "env": case["env"]}, **extra)
         want = []
-        return {"op": "snap", "events": R.wire(obs["events"]), "nb_threads": obs["nb_threads"],
-                "strategies": [{"k": "chosen", "cli": case["cli"], "env": case["env"]}], "clock": [0], "want": want}
+        return dict({"op": "snap", "events": R.wire(obs["events"]), "nb_threads": obs["nb_threads"],
+                     "strategies": [{"k": "chosen", "cli": case["cli"], "env": case["env"]}], "clock": [0], "want": want}, **extra)
 
     def compare(self, case, obs, ans):
         if "error" in ans:
             if ans["error"] == "rejected":
                 return "the model rejects the expression, the run took place with strategy %s" % (obs["strategy"],)
             return "model error: " + str(ans["error"])
+        # which directory the run gets, and what it holds at that moment (`RunStart.startOf` on the history of runs)
+        start = ans["starts"][-1] if "starts" in ans else (None if dir_unusable(case) else {"holds": False})
+        shown = [x["kind"] for x in obs.get("at_start") or []]
+        if start is None and not ("chosen" in ans and ans["chosen"] is None):       # (an invalid expression is refused first)
+            if obs["events"] or "raised" not in obs["outcome"]:
+                return "the model gives this run no report directory (no session); the real run took place: %s, %d events" % (
+                    obs["outcome"], len(obs["events"]))
+            if obs["outcome"]["raised"] != "TypeError":
+                return "a run whose explicit report directory cannot be made: real %s, modelled TypeError (observation O1)" % (obs["outcome"],)
+            if obs.get("dir_untouched") is False:
+                return "the refused run changed what was at the path of its report directory"
+            return None
+        if start is not None and bool(shown) != start["holds"]:
+            return "report files in the directory when the run starts: real %s, model holds=%s" % (shown, start["holds"])
         if not obs["events"]:
             if "raised" in obs["outcome"]:
                 ok = ans["chosen"] is None and obs["outcome"]["raised"] == "LemoncheesecakeException"
@@ -294,8 +457,19 @@ class Cli(C.Stream):
         f.append("used=" + str(obs["strategy"] if isinstance(obs["strategy"], str) else obs["strategy"].get("k")))
         if case.get("backends"):
             f.append("reporting=" + "+".join(case["backends"]))
+        if case.get("rdir"):
+            rd = case["rdir"]
+            f.append("report-dir:via=%s" % rd["via"])
+            f.append("report-dir:state=%s" % rd["state"])
+            f.append("report-dir:%s" % ("run-refused" if not obs["events"] else "run-took-place"))
+            if rd["state"] == "previous":
+                f.append("report-dir:previous-run-into-the-same-%s" % ("default-location(rotated)" if rd["via"] == "default" else "explicit-directory"))
+            if obs.get("at_start"):
+                f.append("report-dir:REPORT-FILE-VISIBLE-WHEN-THE-RUN-STARTS")
         if case.get("project_info"):
             f.append("project-build_report_info")
+        from props import c10 as _c10
+        f += _c10.thread_name_features(case["spec"])
         if case["spec"].get("has_info"):
             f.append("tests-call-add_report_info")
             pnames = {n for n, _ in case.get("project_info") or []}
@@ -314,6 +488,8 @@ class Cli(C.Stream):
             yield dict(case, spec=c["spec"])
         if case["variant"]:
             yield dict(case, variant=0)
+        if case.get("rdir") and case["rdir"]["via"] not in ("option", "default"):
+            yield dict(case, rdir=dict(case["rdir"], via="option"))
         if case.get("project_info"):
             yield {k: v for k, v in case.items() if k not in ("project_info", "title")}
         b = case.get("backends") or []
